@@ -51,6 +51,34 @@ pub struct Cfg {
 pub enum ErrSpec {
     Sig(u8), // kind id
     Foreign,
+    /// a `std::io::Error` of the given kind (index into `IO_KINDS`), either wrapped in
+    /// `SignatureError::IO` (a SignatureError: comes back unchanged) or boxed bare (a foreign
+    /// error: comes back as an internal failure)
+    Io(u8, bool),
+}
+
+pub const IO_KINDS: [std::io::ErrorKind; 8] = [
+    std::io::ErrorKind::Interrupted,
+    std::io::ErrorKind::TimedOut,
+    std::io::ErrorKind::WouldBlock,
+    std::io::ErrorKind::NotFound,
+    std::io::ErrorKind::Other,
+    std::io::ErrorKind::ConnectionReset,
+    std::io::ErrorKind::UnexpectedEof,
+    std::io::ErrorKind::PermissionDenied,
+];
+
+impl ErrSpec {
+    /// The kind the caller must see for this provider error (C14: a SignatureError unchanged,
+    /// anything else as an internal failure).
+    pub fn kind(&self) -> u8 {
+        match self {
+            ErrSpec::Sig(k) => *k,
+            ErrSpec::Foreign => 2,
+            ErrSpec::Io(_, true) => 1,
+            ErrSpec::Io(_, false) => 2,
+        }
+    }
 }
 
 #[derive(Clone, Debug)]
@@ -61,6 +89,11 @@ pub struct Prov {
     /// (access key, token, secret, principal tag index)
     pub table: Vec<(Vec<u8>, Option<Vec<u8>>, Vec<u8>, u32)>,
     pub fail: Option<ErrSpec>,
+    /// 0: `fail` answers every call; k > 0: `fail` answers the first k calls made to the
+    /// instance, later calls are answered from the table (a provider that recovers)
+    pub fail_first: u32,
+    /// number of calls the instance had already received before this validation (histories)
+    pub calls_before: u32,
 }
 
 impl Prov {
@@ -71,6 +104,8 @@ impl Prov {
             call_pending: 0,
             table: vec![(ak.to_vec(), token.map(|t| t.to_vec()), secret.to_vec(), 1)],
             fail: None,
+            fail_first: 0,
+            calls_before: 0,
         }
     }
 }
@@ -154,6 +189,8 @@ fn make_box_error(e: &ErrSpec) -> BoxError {
     match e {
         ErrSpec::Sig(k) => Box::new(make_sig_error(*k)),
         ErrSpec::Foreign => Box::new(ForeignError),
+        ErrSpec::Io(k, true) => Box::new(SignatureError::IO(std::io::Error::new(IO_KINDS[*k as usize % IO_KINDS.len()], "key store read failed"))),
+        ErrSpec::Io(k, false) => Box::new(std::io::Error::new(IO_KINDS[*k as usize % IO_KINDS.len()], "key store read failed")),
     }
 }
 
@@ -181,16 +218,20 @@ pub struct ScriptedProvider {
     pub log: Arc<Mutex<ProvLog>>,
     ready_left: u32,
     is_ready: bool,
+    /// calls received so far (starts at `spec.calls_before`)
+    pub calls_made: u32,
 }
 
 impl ScriptedProvider {
     pub fn new(spec: Prov) -> Self {
         let ready_left = spec.ready_pending;
+        let calls_made = spec.calls_before;
         ScriptedProvider {
             spec,
             log: Arc::new(Mutex::new(ProvLog::default())),
             ready_left,
             is_ready: false,
+            calls_made,
         }
     }
 }
@@ -289,7 +330,13 @@ impl Service<GetSigningKeyRequest> for ScriptedProvider {
         }
         self.is_ready = false;
         self.ready_left = self.spec.ready_pending;
-        let result: Result<GetSigningKeyResponse, BoxError> = if let Some(e) = &self.spec.fail {
+        let call_index = self.calls_made;
+        self.calls_made += 1;
+        let failing = match &self.spec.fail {
+            Some(e) if self.spec.fail_first == 0 || call_index < self.spec.fail_first => Some(e),
+            _ => None,
+        };
+        let result: Result<GetSigningKeyResponse, BoxError> = if let Some(e) = failing {
             Err(make_box_error(e))
         } else {
             match self.spec.table.iter().find(|(ak, tok, _, _)| *ak == call.access_key && *tok == call.token) {
@@ -588,6 +635,9 @@ fn cerr(e: &ErrSpec) -> String {
     match e {
         ErrSpec::Sig(k) => format!("(ESig {})", cn(*k as u128)),
         ErrSpec::Foreign => "EForeign".to_string(),
+        // for the model an I/O error is the SignatureError::IO kind when wrapped, a foreign error when bare
+        ErrSpec::Io(_, true) => format!("(ESig {})", cn(1)),
+        ErrSpec::Io(_, false) => "EForeign".to_string(),
     }
 }
 
@@ -635,7 +685,7 @@ pub fn coq_term(prop: u8, w: &Wire, c: &Cfg, p: &Prov, ob: &Observed, x: &Expect
             .collect::<Vec<_>>(),
     );
     let prov = format!(
-        "(mk_prov {} {} {} {} {})",
+        "(mk_prov {} {} {} {} {} {} {})",
         p.ready_pending,
         match &p.ready_err {
             Some(e) => format!("(Some {})", cerr(e)),
@@ -646,7 +696,9 @@ pub fn coq_term(prop: u8, w: &Wire, c: &Cfg, p: &Prov, ob: &Observed, x: &Expect
         match &p.fail {
             Some(e) => format!("(Some {})", cerr(e)),
             None => "None".to_string(),
-        }
+        },
+        p.fail_first,
+        p.calls_before
     );
     let out = match &ob.outcome {
         Outcome::Accepted {
@@ -728,6 +780,7 @@ fn herr(e: &Option<ErrSpec>) -> String {
         None => "-".to_string(),
         Some(ErrSpec::Foreign) => "f".to_string(),
         Some(ErrSpec::Sig(k)) => format!("s{}", k),
+        Some(ErrSpec::Io(k, w)) => format!("i{}{}", k, if *w { "w" } else { "b" }),
     }
 }
 
@@ -736,6 +789,8 @@ fn perr(s: &str) -> Option<ErrSpec> {
         None
     } else if s == "f" {
         Some(ErrSpec::Foreign)
+    } else if s.starts_with('i') && s.len() >= 3 {
+        Some(ErrSpec::Io(s[1..s.len() - 1].parse().unwrap_or(4), s.ends_with('w')))
     } else {
         Some(ErrSpec::Sig(s[1..].parse().unwrap_or(11)))
     }
@@ -776,7 +831,7 @@ pub fn input_line(prop: u8, w: &Wire, c: &Cfg, p: &Prov, x: &Expect) -> String {
             .join(";")
     };
     format!(
-        "validate prop={} m={} u={} v={} h={} b={} bk={} rg={} sv={} ns={} nn={} al={} ir={} px={} s3={} fold={} vr={} rp={} re={} cp={} tb={} fl={} xa={} xr={} xk={} xc={} xt={}",
+        "validate prop={} m={} u={} v={} h={} b={} bk={} rg={} sv={} ns={} nn={} al={} ir={} px={} s3={} fold={} vr={} rp={} re={} cp={} tb={} fl={} ff={} cb={} xa={} xr={} xk={} xc={} xt={}",
         prop,
         hexs(w.method.as_bytes()),
         hexs(w.uri.as_bytes()),
@@ -799,6 +854,8 @@ pub fn input_line(prop: u8, w: &Wire, c: &Cfg, p: &Prov, x: &Expect) -> String {
         p.call_pending,
         tb,
         herr(&p.fail),
+        p.fail_first,
+        p.calls_before,
         x.accept as u8,
         x.refuse as u8,
         x.kind.map(|k| k.to_string()).unwrap_or("-".to_string()),
@@ -863,6 +920,8 @@ pub fn parse_input(f: &std::collections::HashMap<String, String>) -> (u8, Wire, 
         call_pending: g("cp").parse().unwrap_or(0),
         table,
         fail: perr(&g("fl")),
+        fail_first: g("ff").parse().unwrap_or(0),
+        calls_before: g("cb").parse().unwrap_or(0),
     };
     let x = Expect {
         accept: g("xa") == "1",
